@@ -520,7 +520,7 @@ package smtp
 
 //@ contract isPrintableASCII(val) (ok)
 //@   prop C11 C14 C15
-//@   ensures @C15,C14 printable-means-line-safe: ok ==> noCRLF(val)
+//@   ensures @C15,C14 printable-means-line-safe: ok ==> noCRLF(val) && printableASCII(val)
 //@   loop 1:
 //@     invariant 0 <= itpos() && itpos() <= len(val) && (forall k :: 0 <= k && k < itpos() ==> val[k] >= 32 && val[k] <= 126)
 
@@ -559,6 +559,7 @@ package smtp
 //@   before (*strings.Builder).WriteString: @C15 only-negotiated-parameters: ($1 == " BODY=8BITMIME" ==> has(c.ext, "8BITMIME")) && ($1 == " REQUIRETLS" ==> has(c.ext, "REQUIRETLS")) && ($1 == " SMTPUTF8" ==> has(c.ext, "SMTPUTF8"))
 //@   before fmt.Fprintf: @C15 only-negotiated-parameters: ($1 == " SIZE=%v" ==> has(c.ext, "SIZE")) && ($1 == " RET=%s" ==> has(c.ext, "DSN")) && ($1 == " ENVID=%s" ==> has(c.ext, "DSN")) && ($1 == " AUTH=%s" ==> has(c.ext, "AUTH"))
 //@   before (*Client).cmd: @C15 extensions-from-the-latest-ehlo: c.didHello
+//@   before encodeXtext#1: @C14 envid-within-the-xtext-domain: $0 == opts.EnvelopeID && printableASCII($0)
 //@   ensures @C15 nothing-written-for-bad-line: !noCRLF(from) ==> err != nil && c.text.cmds == old(c.text.cmds)
 //@   ensures @C15 greeting-plus-one: c.text.cmds <= old(c.text.cmds) + 3
 //@   ensures @C15 requiretls-not-silently-dropped: opts != nil && opts.RequireTLS && !has(c.ext, "REQUIRETLS") ==> err != nil && c.text.cmds <= old(c.text.cmds) + 2
